@@ -3,6 +3,7 @@ import Pandora.Spec.C06
 import Pandora.Model.C06CliShutdown
 import Pandora.Model.C06SinkFail
 import Pandora.Model.C06Engine
+import Pandora.Model.C06ErrJoin
 
 /-!
 Line-protocol driver of C06. Input kinds (see harness/cmd/c06):
@@ -134,11 +135,17 @@ def handleQueue (kv : List (String × String)) (impl : String) : String × Strin
       let o : QueueObs := { reports := reports, lines := lines, dropped := dropped, err := getS ikv "err",
                             order := getS ikv "order" == "1", dup := (getN? ikv "dup").getD 1,
                             bad := (getN? ikv "bad").getD 1, closed := getS ikv "closed" == "1", w := w }
-      let i : QueueIn := { kind := kind, g := g, k := k, q := q }
+      let closeErr := getS kv "closeerr" == "1"
+      let i : QueueIn := { kind := kind, g := g, k := k, q := q, closeErr := closeErr }
       -- is the observed (lines, dropped) an outcome of the model? if not predict the no-drop run
       let feasible := lines + dropped == g * k && (kind == .encoder || dropped == 0) &&
                       (dropped == 0 || lines ≥ min (g * k) q)
-      let m := if feasible then modelQueue kind g k q lines dropped else modelQueue kind g k q (g * k) 0
+      let (ml, md) := if feasible then (lines, dropped) else (g * k, 0)
+      let m := modelQueue kind g k q ml md
+      -- the sink's Close fails too: Run's error is what the error-join model makes of (close error, drop count)
+      let m := if closeErr then m.replace s!" err={if md == 0 then "nil" else s!"dropped:{md}"} " s!" err={expectedErr kind true md} " else m
+      -- borrowed samples: every one goes back to its owner exactly once (written or dropped)
+      let m := if (lookup kv "borrow").isSome then s!"{m} returns={g * k} dblret=0" else m
       let m := match wtok with | some t => s!"{m} w={t}" | none => m
       (m, judgeQueue i o)
     | _, _, _ =>
@@ -179,10 +186,12 @@ def handleEngine (kv : List (String × String)) (impl : String) : String × Stri
   | some kind, some pools, some ammo, some per, some q =>
     match getN? ikv "reports", getN? ikv "lines", getN? ikv "dropped" with
     | some reports, some lines, some dropped =>
-      let cancelled := getS kv "cancel" != "-1"
+      -- a pool that fails by itself (round 3) is judged like a cancel: after Wait, for the reports made before the failure
+      let cancelled := getS kv "cancel" != "-1" || (lookup kv "fail").isSome
       let o := lateObs ikv reports lines dropped
       -- a run that ends by itself without drops is fully determined: all pools × ammo × per reports, each one line
-      let n := pools * ammo * per
+      -- (a pool that never starts an instance — `inst=0`, round 3 — shoots nothing)
+      let n := if getN? kv "inst" == some 0 then 0 else pools * ammo * per
       -- an overdue schedule with discard_overflow: how many tokens are overdue depends on the clock; the engine's own
       -- "discarded" samples (one per ammo that was not shot) must all be in the output, next to the guns' reports
       let discTok := lookup ikv "disc"
@@ -230,6 +239,24 @@ def modelSinkFail (kind : Kind) (n limit : Nat) : String :=
   let closed := st.closes == 1 && !st.writeAfterClose && st.phase == .returned
   s!"err={if st.err then "other" else "nil"} closed={if closed then 1 else 0} failed={if st.failed then 1 else 0} accepted={if st.failed then limit else 0}"
 
+open Pandora.Model.C06SinkFail in
+/-- (round 3) coinciding faults: `n` reports into a queue of `q` before Run starts (so `n - min n q` drops), the sink
+rejects everything after `limit` bytes (`none`: accepts everything), its Close may fail as well. The failing-sink
+model says whether the final flush fails; the error-join model says what Run's error is made of. -/
+def modelCoincide (kind : Kind) (n q : Nat) (limit : Option Nat) (closeErr : Bool) : String :=
+  let acc := min n q
+  let tr : List Ev := List.replicate acc .report ++ [.cancel, .seeCancel] ++ List.replicate acc (.drain false) ++
+    (if limit.isSome then [.sinkBreaks] else []) ++ [.drain false]
+  let st := run kind {} tr
+  let closed := st.closes == 1 && !st.writeAfterClose && st.phase == .returned
+  let enc := kind == .jsonlines
+  let e := Pandora.Model.C06ErrJoin.finalErr Pandora.Model.C06ErrJoin.codeJoin Pandora.Model.C06ErrJoin.codeOrder
+    ⟨false, enc && st.err, enc && closeErr, n - acc⟩
+  let accepted := match limit with
+    | some l => if st.failed then s!"{l}" else "all"
+    | none => "all"
+  s!"err={Pandora.Model.C06ErrJoin.errText e} closed={if closed then 1 else 0} failed={if st.failed then 1 else 0} accepted={accepted} dropped={n - acc} lines={if st.failed then 0 else acc}"
+
 def handleSinkFail (kv : List (String × String)) (impl : String) : String × String :=
   let ikv := parseKV impl
   if (lookup ikv "inconclusive").isSome then ("-", "skip:inconclusive") else
@@ -237,6 +264,16 @@ def handleSinkFail (kv : List (String × String)) (impl : String) : String × St
     | "phout" => some .phout
     | "jsonlines" => some .jsonlines
     | _ => none
+  let coincide := (lookup kv "q").isSome || getS kv "closeerr" == "1" || getS kv "limit" == "none"
+  if coincide then
+    match kind?, getN? kv "n", lookup ikv "closed", getN? ikv "dropped", getN? ikv "lines" with
+    | some kind, some n, some closed, some d, some lines =>
+      let q := (getN? kv "q").getD (n + 1)
+      let limit := if getS kv "limit" == "none" then none else getN? kv "limit"
+      (modelCoincide kind n q limit (getS kv "closeerr" == "1"),
+       judgeCoincide n q (getS ikv "failed" == "1") d lines (closed == "1"))
+    | _, _, _, _, _ => ("-", s!"fail:crash:{(impl.take 120).toString}")
+  else
   match kind?, getN? kv "n", getN? kv "limit", lookup ikv "closed" with
   | some kind, some n, some limit, some closed => (modelSinkFail kind n limit, judgeFailingSink (closed == "1"))
   | _, _, _, _ => ("-", s!"fail:crash:{(impl.take 120).toString}")
@@ -245,7 +282,13 @@ open Pandora.Model.CliShutdown in
 /-- what the (repaired) shutdown model says about a single signal: the exit is reached with everything flushed -/
 def modelProcFlushed (sig : String) : Bool :=
   let s := if sig == "INT" then Sig.int else Sig.term
-  let st := run Cfg.repaired {} [.signal s, .takeSignal, .engineReturned false, .takeErrs, .tasksDone, .takeWaitDone]
+  let tr : List Ev := match sig with
+    -- (round 3) the engine fails by itself: error taken, cancel, wait for the tasks, exit
+    | "FAULT" => [.engineReturned false, .takeErrs, .tasksDone, .takeWaitDone]
+    -- the run ends by itself
+    | "NONE" => [.tasksDone, .engineReturned true, .takeErrs]
+    | _ => [.signal s, .takeSignal, .engineReturned false, .takeErrs, .tasksDone, .takeWaitDone]
+  let st := run Cfg.repaired {} tr
   match st.exit with
   | some x => x.flushed
   | none => false
@@ -258,7 +301,11 @@ def handleProc (kv : List (String × String)) (impl : String) : String × String
   | some ex, some sb, some st, some l =>
     ("-", judgeProc { exit := ex, servedBefore := sb, started := st, lines := l, bad := (getN? ikv "bad").getD 0,
                       repro := (getN? ikv "repro").getD 0, timedOut := getS ikv "tmo" == "1",
-                      servedExit := (getN? ikv "served_exit").getD 0, since := (getN? ikv "since").getD 100000 })
+                      servedExit := (getN? ikv "served_exit").getD 0, since := (getN? ikv "since").getD 100000,
+                      what := match getS kv "sig" with
+                        | "FAULT" => "the second pool failed"
+                        | "NONE" => "the run ended"
+                        | _ => "the signal" })
   | _, _, _, _ => ("-", s!"fail:crash:{(impl.take 160).toString}")
 
 def handle : Handler := fun input impl =>
